@@ -718,6 +718,39 @@ fn run_hostile_decoders(plan: &Plan, lib: &dyn Lib, rec: &mut Rec) {
             e.extend_from_slice(&x.bytes(extra));
             rec.fault("extend");
             rec.call(lib, g, Op::Exercise, &[&[s.ty as u8], &[cd as u8], &e]);
+            if matches!(cd, Codec::Json | Codec::JsonReader | Codec::JsonValue) {
+                // text that stays VALID UTF-8 and keeps its byte length but is no longer ASCII: a 2-, 3- or 4-byte character
+                // over 2, 3 or 4 adjacent hex digits, starting on an even and on an odd digit; the same as a \u escape
+                // (the decoders get past the JSON parser and meet multi-byte characters inside what they slice as digit pairs)
+                {
+                    let text = enc.clone();
+                    let runs: Vec<usize> = (0..text.len().saturating_sub(8)).filter(|i| text[*i..*i + 8].iter().all(|b| b.is_ascii_hexdigit())).collect();
+                    if !runs.is_empty() {
+                        for (w, ch) in [(2usize, "\u{e9}"), (3, "\u{20ac}"), (4, "\u{1f600}")] {
+                            for parity in 0..2usize {
+                                let at = runs[x.below(runs.len() as u64) as usize] + parity;
+                                let mut t = text.clone();
+                                t[at..at + w].copy_from_slice(ch.as_bytes());
+                                rec.fault("utf8-multibyte-in-hex-text");
+                                rec.call(lib, g, Op::Exercise, &[&[s.ty as u8], &[cd as u8], &t]);
+                            }
+                        }
+                        // six ASCII bytes "\u00e9" in place of six digits (decodes to ONE two-byte character: the string gets shorter),
+                        // and in place of one digit (the string gets longer)
+                        let at = runs[x.below(runs.len() as u64) as usize];
+                        let mut t = text.clone();
+                        t.splice(at..at + 6, b"\\u00e9".iter().copied());
+                        rec.call(lib, g, Op::Exercise, &[&[s.ty as u8], &[cd as u8], &t]);
+                        let mut t = text.clone();
+                        t.splice(at..at + 1, b"\\u00e9".iter().copied());
+                        rec.call(lib, g, Op::Exercise, &[&[s.ty as u8], &[cd as u8], &t]);
+                        // an escaped ASCII digit: "\u0030" is '0' — a string the parser must hand over as an owned copy
+                        let mut t = text.clone();
+                        t.splice(at..at + 1, b"\\u0030".iter().copied());
+                        rec.call(lib, g, Op::Exercise, &[&[s.ty as u8], &[cd as u8], &t]);
+                    }
+                }
+            }
             if cd == Codec::Json {
                 // hex-digit corruption: a digit becomes a non-hex character; a digit is dropped; case is changed
                 let text = enc.clone();
